@@ -40,7 +40,9 @@ func (f *H264) unmarshal(ctx *unmarshalContext) error {
 				}
 
 				// some cameras ship parameters with Annex-B prefix
-				sps = bytes.TrimPrefix(sps, []byte{0, 0, 0, 1})
+				for bytes.HasPrefix(sps, []byte{0, 0, 0, 1}) {
+					sps = sps[4:]
+				}
 
 				pps, err := base64.StdEncoding.DecodeString(tmp[1])
 				if err != nil {
@@ -48,7 +50,9 @@ func (f *H264) unmarshal(ctx *unmarshalContext) error {
 				}
 
 				// some cameras ship parameters with Annex-B prefix
-				pps = bytes.TrimPrefix(pps, []byte{0, 0, 0, 1})
+				for bytes.HasPrefix(pps, []byte{0, 0, 0, 1}) {
+					pps = pps[4:]
+				}
 
 				var spsp h264.SPS
 				err = spsp.Unmarshal(sps)
